@@ -94,6 +94,32 @@ var (
 	numZeroBuf = []byte{'0'}
 )
 
+// intTailTable marks the bytes that continue a JSON number after its integer
+// part: with one of them the literal is not an integer.
+var intTailTable = [256]bool{
+	'.': true,
+	'e': true,
+	'E': true,
+}
+
+// validIntegerLiteral reports whether num, followed by the byte next, is a
+// JSON integer: no bare minus sign, no leading zero, no fraction or exponent.
+func validIntegerLiteral(num []byte, next byte) bool {
+	if intTailTable[next] {
+		return false
+	}
+	if num[0] == '-' {
+		num = num[1:]
+	}
+	if len(num) == 0 {
+		return false
+	}
+	if num[0] == '0' && (len(num) > 1 || numTable[next]) {
+		return false
+	}
+	return true
+}
+
 func (d *intDecoder) decodeStreamByte(s *Stream) ([]byte, error) {
 	for {
 		switch s.char() {
@@ -118,9 +144,25 @@ func (d *intDecoder) decodeStreamByte(s *Stream) ([]byte, error) {
 			if len(num) < 2 {
 				goto ERROR
 			}
+			if len(num) > 2 && num[1] == '0' {
+				// in a stream a value ends after a leading zero: "-01" is -0 followed by 1
+				s.cursor = start + 2
+				num = s.buf[start:s.cursor]
+			}
+			if intTailTable[s.char()] {
+				return nil, d.typeError(num, s.totalOffset())
+			}
 			return num, nil
 		case '0':
 			s.cursor++
+			if s.char() == nul {
+				s.read()
+			}
+			// in a stream a digit after the leading zero starts the next value;
+			// a fraction or exponent means the literal is not an integer
+			if intTailTable[s.char()] {
+				return nil, d.typeError(numZeroBuf, s.totalOffset())
+			}
 			return numZeroBuf, nil
 		case '1', '2', '3', '4', '5', '6', '7', '8', '9':
 			start := s.cursor
@@ -137,6 +179,9 @@ func (d *intDecoder) decodeStreamByte(s *Stream) ([]byte, error) {
 				break
 			}
 			num := s.buf[start:s.cursor]
+			if !validIntegerLiteral(num, s.char()) {
+				return nil, d.typeError(num, s.totalOffset())
+			}
 			return num, nil
 		case 'n':
 			if err := nullBytes(s); err != nil {
@@ -165,6 +210,11 @@ func (d *intDecoder) decodeByte(buf []byte, cursor int64) ([]byte, int64, error)
 			continue
 		case '0':
 			cursor++
+			// a digit after the leading zero is reported by the caller
+			// (invalid character after the value); a fraction or exponent is not an integer
+			if intTailTable[char(b, cursor)] {
+				return nil, 0, d.typeError(numZeroBuf, cursor)
+			}
 			return numZeroBuf, cursor, nil
 		case '-', '1', '2', '3', '4', '5', '6', '7', '8', '9':
 			start := cursor
@@ -173,6 +223,9 @@ func (d *intDecoder) decodeByte(buf []byte, cursor int64) ([]byte, int64, error)
 				cursor++
 			}
 			num := buf[start:cursor]
+			if !validIntegerLiteral(num, char(b, cursor)) {
+				return nil, 0, d.typeError(num, cursor)
+			}
 			return num, cursor, nil
 		case 'n':
 			if err := validateNull(buf, cursor); err != nil {
